@@ -66,6 +66,10 @@ type c19CommitCfg struct {
 	baseNum uint64
 	weights []uint64
 	maxLen  int
+	// leavesOnly: precommits only by members, one per voter, and only for leaf blocks or the root (used for
+	// the 6-block trees root->F->{FA,FB}, root->E->EA: the smallest in which three vote-nodes at depth 2
+	// merge below a voted block through two different children)
+	leavesOnly bool
 }
 
 func (c *c19CommitCfg) String() string {
@@ -116,6 +120,15 @@ func c19RunCommitCfg[N constraints.Unsigned](r *verifmc.Report, c *c19CommitCfg,
 	num := func(b int) N { return N(c.baseNum + uint64(t.Depth[b])) }
 	nv := len(c.weights) + 1 // + the non-member
 	letters := nv * n
+	isLeaf := make([]bool, n)
+	for i := range isLeaf {
+		isLeaf[i] = true
+	}
+	for i, p := range c.parent {
+		if i > 0 && p >= 0 {
+			isLeaf[p] = false
+		}
+	}
 	pcs := make([]ref.C19Pc, 0, c.maxLen)
 	var rec func()
 	eval := func() {
@@ -195,6 +208,18 @@ func c19RunCommitCfg[N constraints.Unsigned](r *verifmc.Report, c *c19CommitCfg,
 			if v == nv-1 {
 				v = -1
 			}
+			if c.leavesOnly {
+				if v < 0 || !(isLeaf[b] || b == 0) {
+					continue
+				}
+				dupVoter := false
+				for _, q := range pcs {
+					dupVoter = dupVoter || q.Voter == v
+				}
+				if dupVoter {
+					continue
+				}
+			}
 			pcs = append(pcs, ref.C19Pc{Voter: v, Block: b})
 			rec()
 			pcs = pcs[:len(pcs)-1]
@@ -206,14 +231,14 @@ func c19RunCommitCfg[N constraints.Unsigned](r *verifmc.Report, c *c19CommitCfg,
 func TestVerif_C19_commit(t *testing.T) {
 	r := verifmc.NewReport("C19", "commit", "exploration")
 	defer r.Write()
-	r.Rule = "ValidateCommit on every sequence (= every multiset in every order) of <=L precommits over {members + one non-member} x {blocks}, every block as target, for every block tree with <=4 (thorough 5) blocks, two hash orders, base numbers 1 and 2^32-1-depth, uint32 and uint64 numbers, voter weight vectors with weights {1,2}; non-trivial = inputs on which all readings of the statement agree; accepted ones are counted separately"
+	r.Rule = "ValidateCommit on every sequence (= every multiset in every order) of <=L precommits over {members + one non-member} x {blocks}, every block as target, for every block tree with <=4 (thorough 5) blocks, and for every labelling of the 6-block tree root->F->{FA,FB}, root->E->EA with one member precommit per voter for leaf blocks or the root (base number 1, weights {3,2,1,1}; thorough also {3,3,1,1} and {1,1,1,1}), two hash orders, base numbers 1 and 2^32-1-depth, uint32 and uint64 numbers, voter weight vectors with weights {1,2}; non-trivial = inputs on which all readings of the statement agree; accepted ones are counted separately"
 	thorough := verifmc.Thorough()
 	type wl struct {
 		w []uint64
 		l int
 	}
 	var cfgs []*c19CommitCfg
-	maxN := verifmc.Pick(4, 5)
+	maxN := 6
 	for n := 1; n <= maxN; n++ {
 		verifmc.ParentVectors(n, func(parent []int) {
 			ident := make([]int, n)
@@ -229,6 +254,27 @@ func TestVerif_C19_commit(t *testing.T) {
 			}
 			var wls []wl
 			switch {
+			case n == 6:
+				// only the merge shape: two children of the root, three leaves at depth 2
+				kids, deep := 0, 0
+				tr := ref.C19NewTree(parent)
+				for i := 1; i < n; i++ {
+					if parent[i] == 0 {
+						kids++
+					}
+					if tr.Depth[i] == 2 {
+						deep++
+					}
+				}
+				if kids != 2 || deep != 3 {
+					return
+				}
+				wls = []wl{{[]uint64{3, 2, 1, 1}, 4}}
+				if thorough {
+					wls = append(wls, wl{[]uint64{3, 3, 1, 1}, 4}, wl{[]uint64{1, 1, 1, 1}, 4})
+				}
+			case !thorough && n == 5:
+				return
 			case !thorough && n <= 3:
 				wls = []wl{{[]uint64{1, 1, 1}, 3}, {[]uint64{2, 1, 1}, 4}, {[]uint64{1, 1, 2}, 3}, {[]uint64{2, 2, 1}, 3}, {[]uint64{1, 1, 1, 1}, 3}, {[]uint64{2, 1, 1, 1}, 3}}
 			case !thorough:
@@ -243,8 +289,11 @@ func TestVerif_C19_commit(t *testing.T) {
 					continue
 				}
 				for _, base := range []uint64{1, 1<<32 - 1 - uint64(maxDepth)} {
+					if n == 6 && base != 1 {
+						continue
+					}
 					for _, x := range wls {
-						cfgs = append(cfgs, &c19CommitCfg{parent: append([]int{}, parent...), perm: append([]int{}, perm...), baseNum: base, weights: x.w, maxLen: x.l})
+						cfgs = append(cfgs, &c19CommitCfg{parent: append([]int{}, parent...), perm: append([]int{}, perm...), baseNum: base, weights: x.w, maxLen: x.l, leavesOnly: n == 6})
 					}
 				}
 			}
